@@ -241,7 +241,7 @@ def cliModeNotEffective (c : Call) (ops : List Op) : Bool :=
      | none => false)
   | _, _ => false
 
-/-- StatusAll whose only defect is the filter arriving widened to the error / queued families (K10) -/
+/-- StatusAll whose only defect is the filter arriving widened to the error / queued families (K23) -/
 def cliFilterWidened (c : Call) (ops : List Op) : Bool :=
   match c, ops with
   | .statusAll m l, [⟨n, .num s⟩] =>
@@ -249,7 +249,7 @@ def cliFilterWidened (c : Call) (ops : List Op) : Bool :=
   | _, _ => false
 
 -- (a '#' or '?' in an unescaped path component also swallows all or the first of the query parameters that
--- follow: in the K13 zone only the operation and the path as it arrives are checked for the why-tag)
+-- follow: in the K26 zone only the operation and the path as it arrives are checked for the why-tag)
 def answerCli (pre post : List String) : String :=
   match (do
       let cfg : CliCfg := { creds := (← field pre "cr") == "1", auth := ← parseCliAuth (← field pre "cc"), rpc := ← parseRpc (← field pre "rpc") }
@@ -320,6 +320,7 @@ def addWhy (r : AddReq) : String :=
   "+".intercalate (
     (if r.mp == .none then ["no-body"] else if r.mp == .junk then ["body-junk"] else []) ++
     (if bodyMismatch r.query then ["body-mismatch"] else []) ++
+    (if versionContradiction r.query then ["v0-other-hash"] else []) ++
     optReasons { creds := r.creds, auth := r.auth, pf := false, method := "POST", segs := [], slash := false,
                  query := r.query, md := r.md, body := .none, rpc := r.rpc } ++
     (if (lateWord (getq r.query "chunker") "").isNone then ["chunker"] else []) ++
@@ -339,8 +340,6 @@ def answerAdd (pre post : List String) : String :=
       let names := failed.map (·.1)
       "propfail " ++ ",".intercalate names ++ " arm=" ++ a ++
         (if names.contains "fail_closed" then " why=" ++ addWhy r else "") ++
-        (if names.contains "faithful" && (intParam (getq r.query "cid-version") 0) == some 0 && hashOf r != "sha2-256"
-          then " why=v0-hash" else "") ++
         (if names.contains "answered" then " why=no-response" else "")
     else if canonAddResp (normAddBody r o) != canonAddResp (normAddBody r m) then
       "diff arm=" ++ a ++ " model=st=" ++ toString m.status ++ ",body=" ++ showBody m.body ++ ",ops=" ++
